@@ -122,7 +122,10 @@ CAUGHT = exit 1 with a VIOLATION line in the quick tier; SILENT entries are prop
 Each fix of §6 was reverted on a scratch worktree of HEAD and the owning quick check run
 against it: every revert is reported again (D16 through the C05 protein-level tables and C08;
 D18 through the computed-column subsets that were made deterministic after the first revert
-run had missed it at seed 0).
+run had missed it at seed 0). Three reverts (D17, D19, D21) no longer apply textually because later fixes touch the
+same lines; they are undone through the catalogue changes `c08-unsorted-match`,
+`c15-first-member-key` and `c08-match-decoy-global-rng`, which restore the old code at that site.
+All 24 are caught.
 '''
 p = os.path.join(HERE, "DESIGN.md")
 s = open(p).read()
